@@ -31,7 +31,7 @@ def seeds():
         ob = (fin.get('first_failed_obligation') or fin.get('first_failed') or '').replace('FAILED obligation ', '').split('@')[0][:120]
         fr = m.get('first_result')
         if m.get('superseded'):
-            ftxt = 'missed; superseded by a repair (see meta)'
+            ftxt = ('caught' if first.get('exit') == 1 and not fr else 'missed') + '; superseded by a repair (see meta)'
         elif fr:
             low = fr.lower()
             ftxt = ('caught for an incidental reason' if 'incidental' in low else '**undecided**' if 'undecided' in low.split(' - ')[0]
@@ -41,7 +41,7 @@ def seeds():
             if m.get('check_results_final') and first.get('exit') == 1:
                 ftxt = 'caught'
         n += 1
-        first_caught += ftxt == 'caught'
+        first_caught += ftxt == 'caught' or ftxt.startswith('caught;')
         missed += 'missed' in ftxt
         undecided += 'undecided' in ftxt
         incidental = locals().get('incidental', 0) + ('incidental' in ftxt)
